@@ -210,6 +210,7 @@ func propC05(c *Check) {
 	ruleR05_2(c)
 	ruleR05_3(c)
 	ruleR05_4(c)
+	ruleR05_5(c)
 	ruleR12_6(c)
 	ruleR01_2(c)
 }
